@@ -734,8 +734,11 @@ def r_relax(ctx):
         # the node re-used as merged node is looked for among the KEPT nodes only (they stay in the layer whatever happens next); a search
         # that also covers merged-away members (chain / the whole layer) can pick a node that the truncation then removes
         finds_ = [x for x in M.walk(rec_t) if M.is_call(x, 'find', 'position', 'find_map', 'rfind')]
-        ctx.check(bool(finds_) and strip_iter(finds_[0][2][0]) == keep_t, 'R06.1', tag + '/recycled-searched-in-kept-slice', b, b.loc(mg[0][0]),
-                  'the kept node to re-use is searched in the kept slice only', 'the node to recycle is searched in %s, not in the kept slice only: a merged-away member can be chosen and then dropped from the layer by the truncation' % (M.show(finds_[0][2][0])[:140] if finds_ else '-'))
+        only_find_ = M.is_call(rec_t, 'find', 'position', 'find_map', 'rfind') or (M.is_field(rec_t, '0') and M.is_call(rec_t[1], 'find', 'position'))
+        for rid_ in ('R06.1', 'R12.e'):
+            ctx.check(bool(finds_) and only_find_ and strip_iter(finds_[0][2][0]) == keep_t, rid_, tag + '/recycled-searched-in-kept-slice', b, b.loc(mg[0][0]),
+                      'the kept node to re-use is the result of ONE search, over the kept slice only',
+                      'the node to recycle is %s, not the result of a search over the kept slice only: a merged-away member (dropped by the truncation) or a node of another layer still waiting in the pool (whose inbound arcs were not produced by transitions into THIS layer) can be chosen' % M.show(rec_t)[:160])
         ctx.check(some_v == id0(opt_payload(rec_t)) and M.is_call(none_v, 'len') and self_field(none_v[2][0], 'nodes'), 'R06.1', tag + '/merged-id', b, b.loc(mg[0][0]),
                   'the merged node is the recycled kept node when there is one, else the node about to be pushed (id = nodes.len())', 'the merged node id is %s' % M.show(midx)[:200])
         # the recycled node has the merged state; the created node carries it and is flagged relaxed
